@@ -27,6 +27,7 @@ Lemma wf_sb_sound : forall n, wf_sb n = true -> wf_s n.
 Proof.
   induction n; simpl; intros H; auto;
     try (apply andb_true_iff in H; destruct H as [H1 H2]; split; auto).
+  apply andb_true_iff in H2. destruct H2; split; auto.
 Qed.
 
 Lemma acc_comm_sound : forall c, acc_comm_b c = true -> fold_comm (acc_interp c).
